@@ -32,8 +32,10 @@ func (a *AwsSim) copyFrom(o *AwsSim) {
 	for k, g := range o.asgs {
 		c := *g
 		c.Instances = append([]SimInst{}, g.Instances...)
+		c.Leaving = append([]SimInst{}, g.Leaving...)
 		a.asgs[k] = &c
 	}
+	a.linger = o.linger
 	e, oe := a.ec2, o.ec2
 	e.nextID, e.fleetSplit, e.fleetMode, e.tick, e.launch = oe.nextID, oe.fleetSplit, oe.fleetMode, oe.tick, oe.launch
 	e.notReady = map[int]bool{}
